@@ -161,7 +161,7 @@ fn build(picks: &[P], b: &mut B, depth: usize, xf: &dyn Fn(BBox) -> BBox) -> Vec
                         // a link in a chain of uses: refers to an earlier target and adds an offset of its own
                         let prev = b.use_targets[p.r as usize % b.use_targets.len()].clone();
                         // (written with the SVG 1.1 spelling of the reference now and then)
-                        let mut u = if p.r % 3 == 1 {
+                        let mut u = if p.r % 3 != 0 {
                             XEl::new("use").a("id", format!("d{id}")).a("xmlns:xlink", "http://www.w3.org/1999/xlink").a("xlink:href", format!("#{prev}"))
                         } else {
                             XEl::new("use").a("id", format!("d{id}")).a("href", format!("#{prev}"))
@@ -184,9 +184,34 @@ fn build(picks: &[P], b: &mut B, depth: usize, xf: &dyn Fn(BBox) -> BBox) -> Vec
                 }
             }
             17 => {
+                if b.use_targets.is_empty() {
+                    // nothing to refer to so far: declare a target
+                    b.use_targets.push(format!("d{id}t"));
+                    b.defs.push(XEl::new("rect").a("id", format!("d{id}t")).a("xy", format!("{} {}", num(p.n[4]), num(p.n[5]))).a("wh", format!("{} {}", num(w), num(h))));
+                }
                 if !b.use_targets.is_empty() {
-                    let t = &b.use_targets[p.r as usize % b.use_targets.len()];
-                    let mut u = if p.r % 4 == 2 {
+                    let mut t = b.use_targets[p.r as usize % b.use_targets.len()].clone();
+                    if p.f & 0x200 != 0 {
+                        // through a link of its own: a <use> of the target (in defs) which adds an offset
+                        let link = format!("d{id}l");
+                        let mut l = XEl::new("use").a("id", link.clone());
+                        if p.f & 0x400 != 0 {
+                            l.set("xmlns:xlink", "http://www.w3.org/1999/xlink");
+                            l.set("xlink:href", format!("#{t}"));
+                        } else {
+                            l.set("href", format!("#{t}"));
+                        }
+                        if p.f & 0x80 != 0 {
+                            l.set("x", num(p.n[4]));
+                        }
+                        if p.f & 0x100 != 0 || p.f & 0x80 == 0 {
+                            l.set("y", num(p.n[5]));
+                        }
+                        b.defs.push(l);
+                        t = link;
+                    }
+                    let t = &t;
+                    let mut u = if p.r % 2 == 0 {
                         XEl::new("use").a("id", id).a("xmlns:xlink", "http://www.w3.org/1999/xlink").a("xlink:href", format!("#{t}"))
                     } else {
                         XEl::new("use").a("id", id).a("href", format!("#{t}"))
@@ -603,7 +628,7 @@ impl Property for C08 {
         let features = case.doc.contains("transform=") || case.doc.contains("clip-path=") || case.doc.contains("<use") || case.doc.contains("#late") || case.doc.contains("=\"-") || case.doc.contains(".5") || case.doc.contains(".25");
         let nontrivial = kinds.len() >= 3 && features;
         let mut labels = vec![];
-        for (pat, l) in [("transform=\"scale(-", "negative-scale"), ("transform=", "transform"), ("clip-path=", "clip"), ("<use", "use"), ("#late", "forward-ref"), ("<box", "box"), ("<path", "path")] {
+        for (pat, l) in [("transform=\"scale(-", "negative-scale"), ("transform=", "transform"), ("clip-path=", "clip"), ("<use", "use"), ("xlink:href=\"#d", "use-xlink"), ("<title>", "child-elements"), ("#late", "forward-ref"), ("<box", "box"), ("<path", "path")] {
             if case.doc.contains(pat) {
                 labels.push(l.to_string());
             }
